@@ -3214,6 +3214,7 @@ pub struct TypedPerturb {
     pub path: Path,             // where the new subexpression is
     pub position: &'static str, // argument | operand | negation-operand | condition | definition
     pub expected_int: bool,     // the type the position requires
+    pub expected_type: bool,    // the position requires a TYPE (domain, codomain, annotation): `expected_int` is then meaningless
     pub got: &'static str,      // int | bool | function | type
     pub form: &'static str,     // syntactic form of the new subexpression
     // the new subexpression was made as a chain (product, sum) whose FIRST operand is a
@@ -3361,7 +3362,16 @@ pub fn perturb_typed(p: &E, rng: &mut Rng) -> Option<TypedPerturb> {
     // (site, position, expected is int)
     let mut cands: Vec<(&Site, &'static str, bool)> = vec![];
     for s in &all {
-        if s.in_type || s.path.is_empty() { continue; }
+        if s.path.is_empty() { continue; }
+        // positions that require a type, wherever they are (also inside annotations)
+        match s.role {
+            Role::PiDom => cands.push((s, "type:domain-of-function-type", true)),
+            Role::PiCod => cands.push((s, "type:codomain-of-function-type", true)),
+            Role::LamAnn => cands.push((s, "type:parameter-annotation", true)),
+            Role::DefAnn => cands.push((s, "type:definition-annotation", true)),
+            _ => {}
+        }
+        if s.in_type { continue; }
         match s.role {
             Role::BinL(_) | Role::BinR(_) => cands.push((s, "operand", true)),
             Role::NegArg => cands.push((s, "negation-operand", true)),
@@ -3383,8 +3393,16 @@ pub fn perturb_typed(p: &E, rng: &mut Rng) -> Option<TypedPerturb> {
     let kind = *rng.pick(&kinds);
     let of_kind: Vec<&(&Site, &'static str, bool)> = cands.iter().filter(|c| c.1 == kind).collect();
     let (s, position, expected_int) = **rng.pick(&of_kind);
-    let (new, got, form, paren_left_chain) = fresh_of_other_type(expected_int, p, rng);
-    Some(TypedPerturb { e: replace_at(p, &s.path, new), path: s.path.clone(), position, expected_int, got, form, paren_left_chain })
+    let expected_type = position.starts_with("type:");
+    let (new, got, form, paren_left_chain) = if expected_type {
+        // anything that is not a type: an integer, a boolean or a function
+        let mut r = fresh_of_other_type(rng.chance(1, 2), p, rng);
+        let mut tries = 0;
+        while r.1 == "type" && tries < 20 { r = fresh_of_other_type(rng.chance(1, 2), p, rng); tries += 1; }
+        if r.1 == "type" { return None; }
+        r
+    } else { fresh_of_other_type(expected_int, p, rng) };
+    Some(TypedPerturb { e: replace_at(p, &s.path, new), path: s.path.clone(), position, expected_int, expected_type, got, form, paren_left_chain })
 }
 
 // Which of the two spans gram's convention points at for a node of this shape: a chain node
